@@ -78,7 +78,7 @@ class C16(Cfg):
     trusted_base = [
         "hand-written model lean/DiscretModel/Model/Pipeline.lean of mutation_query.rs (read phase), Node::write / Edge::write|delete (write phase), tied by the correspondence run (dv-writer vs dmodel_writer)",
         "harness/writer/src/c16.rs: phases called directly (reader closure, authorisation actor message, writer thread held by a `Write` message); one instance shared by the cases of a file, four fresh rows per case",
-        "SQLite: a reader connection sees exactly the committed transactions (WAL snapshot isolation)",
+        "SQLite: a reader connection sees exactly the committed transactions (rollback-journal mode: readers and the writer exclude each other at commit; a writer blocked for more than busy_timeout=5 s fails with `database is locked`, i.e. a refused, not a lost, mutation)",
     ]
     assumptions = [
         "the authorisation actor and the writer are FIFO (tokio mpsc): writes happen in the order of the validations",
